@@ -36,6 +36,7 @@ func runC02(p *eng.Prog, r *eng.Report, tier string) {
 	c02TeeWrapsWhatItWasGiven(c, "C02.13")
 	negotiatorMaskFromFeatures(c, "C02.19")
 	newLayerOnlyAtRestart(c, "C02.20")
+	c02WrappersKeepTheConfiguration(c, "C02.22")
 	firstParam := ""
 	nf, call := negotiateSite(c, "C01.1")
 	if nf != nil {
@@ -843,4 +844,31 @@ func c02SecureIsTheLocation(c *cx, id string) {
 		return true
 	})
 	c.r.Check(id, f, "sources of secureLocation", "K: neither the Origin nor the connection's addresses are consulted", f.Pos(), bad == "", "reads "+bad)
+}
+
+// c02WrappersKeepTheConfiguration (C02.22): the negotiators of the websocket
+// and component packages are the default negotiator with another framing: what
+// the caller configured - the feature list with its STARTTLS feature - reaches
+// xmpp.NewNegotiator as it is: the argument is the wrapper's own parameter. A
+// wrapper that filters the features ("the WebSocket binding has no STARTTLS")
+// removes the forced STARTTLS attempt with it: a ws: session with a peer that
+// advertises nothing becomes ready in clear text.
+func c02WrappersKeepTheConfiguration(c *cx, id string) {
+	n := 0
+	for _, f := range c.allFns() {
+		if f.Short == "xmpp.NewNegotiator" || f.Parent != nil {
+			continue
+		}
+		for _, cl := range f.CallsDeep("xmpp.NewNegotiator") {
+			if len(cl.Args) != 1 {
+				continue
+			}
+			n++
+			a := f.Norm(cl.Args[0], nil)
+			_, isLit := ast.Unparen(cl.Args[0]).(*ast.FuncLit)
+			okArg := a == "p0" || (isLit && f.Short != "websocket.Negotiator")
+			c.r.Check(id, f, "configuration handed to NewNegotiator", "P: a framing wrapper hands on the caller's configuration function itself", cl.Pos(), okArg, "NewNegotiator gets "+a+": the caller's feature list is edited on the way")
+		}
+	}
+	c.r.Floor(id, "calls of NewNegotiator in the module", n, 1)
 }
